@@ -81,22 +81,28 @@ class _Insert(ast.NodeTransformer):
 
 
 class _Loader(importlib.machinery.SourceFileLoader):
+    points = True
+    optimize = -1
+
     def get_code(self, fullname):
         path = self.get_filename(fullname)
         return self.source_to_code(self.get_data(path), path)
 
     def source_to_code(self, data, path, *, _optimize=-1):
         tree = ast.parse(data, path)
-        t = _Insert()
-        tree = t.visit(tree)
-        ast.fix_missing_locations(tree)
-        _installed[path] = t.count
-        return compile(tree, path, "exec", dont_inherit=True, optimize=_optimize)
+        if self.points:
+            t = _Insert()
+            tree = t.visit(tree)
+            ast.fix_missing_locations(tree)
+            _installed[path] = t.count
+        return compile(tree, path, "exec", dont_inherit=True, optimize=self.optimize)
 
 
 class _Finder:
     def __init__(self, prefix):
         self.prefix = prefix
+        self.points = False
+        self.optimize = -1
 
     def find_spec(self, name, path=None, target=None):
         if not (name == self.prefix or name.startswith(self.prefix + ".")):
@@ -105,16 +111,35 @@ class _Finder:
         if spec is None or not isinstance(spec.loader, importlib.machinery.SourceFileLoader):
             return spec
         spec.loader = _Loader(spec.loader.name, spec.loader.path)
+        spec.loader.points, spec.loader.optimize = self.points, self.optimize
         return spec
 
 
-def install(prefix):
-    """-> nothing; afterwards `import prefix` gives the instrumented package.  Refuses when it is already imported."""
+def install(prefix, points=True, optimize=None):
+    """-> nothing; afterwards `import prefix` gives the package compiled from its current source with scheduling points
+    (points=True) and / or at the given optimisation level (optimize=1: what `python -O` / PYTHONOPTIMIZE=1 runs: assert
+    statements removed, __debug__ False).  Settings of several calls add up.  Refuses when it is already imported."""
     loaded = [m for m in sys.modules if m == prefix or m.startswith(prefix + ".")]
     if loaded:
         raise RuntimeError("instrument.install(%r) after import of %r" % (prefix, loaded[:3]))
-    if not any(isinstance(f, _Finder) and f.prefix == prefix for f in sys.meta_path):
-        sys.meta_path.insert(0, _Finder(prefix))
+    finder = next((f for f in sys.meta_path if isinstance(f, _Finder) and f.prefix == prefix), None)
+    if finder is None:
+        finder = _Finder(prefix)
+        sys.meta_path.insert(0, finder)
+    finder.points = finder.points or points
+    if optimize is not None:
+        finder.optimize = optimize
+
+
+def build():
+    """the build of the package under test this process checks: '' (as the default interpreter runs it) or 'O'"""
+    import os
+    return os.environ.get("VERIF_OMBOTT_BUILD", "")
+
+
+def apply_build(prefix="ombott"):
+    if build() == "O":
+        install(prefix, points=False, optimize=1)
 
 
 def points():
